@@ -459,3 +459,209 @@ def random_actions(rng, transport, n, attack=0.25):
             acts.append(("AccProduce", None))
             produced += 1
     return acts
+
+
+# ------------------------------------------------------------------ BLE at request level (ble_request / _write_pdu / _read_pdu)
+def _ctr_of_nonce(nonce):
+    import struct as _s
+    return _s.unpack("<Q", bytes(nonce)[4:])[0]
+
+
+class _BleHandle:
+    max_write_without_response_size = None
+    properties = ["write", "read"]
+    uuid = "00000000-0000-0000-0000-00000000c006"
+    handle = 6
+
+
+class _BleLink:
+    """Duck-typed GATT client + conformant accessory of one BLE session, with scripted faults.  The accessory opens what
+    is written with its own next counter (independent crypto), answers with a well-formed response PDU for the request's
+    transaction id, sealed fragment by fragment with its own send counter."""
+
+    def __init__(self, runner, frag):
+        self.r = runner
+        self.address = "AA:BB:CC:DD:EE:06"
+        self.frag = frag                 # fragment size the client negotiates for encrypted PDUs
+        self.handle = _BleHandle()
+        self.fail_write_at = None        # index of the write (within the current request) that raises BleakError once
+        self.nwrites = 0
+        self.tid = None
+        self.pending = []                # indices (into runner.frames) of the response fragments not yet read
+        self.read_plan = []              # per read: "next" | ("replay", k) | "skip" | "corrupt"
+
+    def determine_fragment_size(self, overhead, handle):
+        return self.frag + 16 - overhead
+
+    async def write_gatt_char(self, handle, data, response=None):
+        i = self.nwrites
+        self.nwrites += 1
+        await asyncio.sleep(0)
+        if self.fail_write_at is not None and i == self.fail_write_at:
+            self.fail_write_at = None
+            from bleak.exc import BleakError
+            raise BleakError("harness: the write was refused")
+        r = self.r
+        plain = C.open_(r.k_c2a, C.counter_nonce(r.acc_recv), bytes(data))
+        if plain is None:
+            r.problems.append(f"accessory cannot open the controller's fragment with its next counter {r.acc_recv}")
+            return
+        r.acc_recv += 1
+        if not (plain[0] & 0x80) and len(plain) >= 3:
+            self.tid = plain[2]
+
+    def prepare_response(self, body_len, nfr):
+        r = self.r
+        body = bytes(r.rng.randrange(256) for _ in range(body_len))
+        cuts = sorted(r.rng.sample(range(1, body_len), min(nfr - 1, max(body_len - 1, 0)))) if body_len > 1 and nfr > 1 else []
+        parts = [body[a:b] for a, b in zip([0, *cuts], [*cuts, body_len])]
+        tid = self.tid if self.tid is not None else 0
+        for k, part in enumerate(parts):
+            pdu = (bytes([0x02, tid, 0]) + len(body).to_bytes(2, "little") + part) if k == 0 else (bytes([0x82, tid]) + part)
+            r.frames.append((C.seal(r.k_a2c, C.counter_nonce(len(r.frames)), pdu), pdu))
+            r.log("produce")
+            self.pending.append(len(r.frames) - 1)
+
+    async def read_gatt_char(self, handle):
+        await asyncio.sleep(0)
+        r = self.r
+        step = self.read_plan.pop(0) if self.read_plan else "next"
+        if step == "skip" and len(self.pending) > 1:
+            self.pending.pop(0)                       # a fragment is lost: the controller gets the one after it
+            step = "next"
+        if step == "corrupt" and self.pending:
+            ct = bytearray(r.frames[self.pending[0]][0])
+            b = r.rng.randrange(len(ct) * 8)
+            ct[b // 8] ^= 1 << (b % 8)
+            r.offered.append(("corrupt", None))
+            return bytearray(ct)
+        if isinstance(step, tuple) and step[0] == "replay" and step[1] < len(r.frames):
+            r.offered.append(("genuine", step[1]))
+            return bytearray(r.frames[step[1]][0])
+        if not self.pending:
+            from bleak.exc import BleakError
+            raise BleakError("harness: nothing to read")
+        k = self.pending.pop(0)
+        r.offered.append(("genuine", k))
+        return bytearray(r.frames[k][0])
+
+
+class BleReqRunner(Base):
+    """The real ble_request (with _write_pdu / _read_pdu) between real EncryptionKey / DecryptionKey objects and a
+    conformant accessory; every (counter) that reaches the AEAD primitives is recorded by logging cipher objects."""
+
+    def __init__(self, rng):
+        super().__init__(rng)
+        self.offered = []
+        self.rekey(log=False)
+
+    def rekey(self, log=True):
+        from aiohomekit.controller.ble import key as K
+        self.k_c2a, self.k_a2c = os.urandom(32), os.urandom(32)
+        enc_log = self.enc_log = []
+        dec_log = self.dec_log = []
+
+        class LE(K.ChaCha20Poly1305Encryptor):
+            def encrypt(self, aad, nonce, pt):
+                enc_log.append(_ctr_of_nonce(nonce))
+                return super().encrypt(aad, nonce, pt)
+
+        class LD(K.ChaCha20Poly1305Decryptor):
+            def decrypt(self, aad, nonce, ct):
+                try:
+                    out = super().decrypt(aad, nonce, ct)
+                except BaseException:
+                    dec_log.append((_ctr_of_nonce(nonce), False))
+                    raise
+                dec_log.append((_ctr_of_nonce(nonce), True))
+                return out
+        oe, od = K.ChaCha20Poly1305Encryptor, K.ChaCha20Poly1305Decryptor
+        K.ChaCha20Poly1305Encryptor, K.ChaCha20Poly1305Decryptor = LE, LD
+        try:
+            self.ek, self.dk = K.EncryptionKey(self.k_c2a), K.DecryptionKey(self.k_a2c)
+        finally:
+            K.ChaCha20Poly1305Encryptor, K.ChaCha20Poly1305Decryptor = oe, od
+        self.acc_recv = 0
+        self.frames = []
+        self.open = True
+        if log:
+            self.log("rekey")
+
+    def _flush_enc(self, start):
+        """enc events for the counters used since `start`: one event per run of consecutive counters."""
+        cs = self.enc_log[start:]
+        i = 0
+        while i < len(cs):
+            j = i
+            while j + 1 < len(cs) and cs[j + 1] == cs[j] + 1:
+                j += 1
+            self.log("enc", c0=cs[i], n=j - i + 1)
+            i = j + 1
+
+    async def transaction(self, frag, req_len, fail_write_at, resp_len, resp_frags, read_plan):
+        """One ble_request on the current session.  Returns True if it completed."""
+        from aiohomekit.controller.ble import client as bc
+        from aiohomekit.pdu import OpCode
+        link = _BleLink(self, frag)
+        link.fail_write_at = fail_write_at
+        link.read_plan = list(read_plan)
+        e0, d0, o0 = len(self.enc_log), len(self.dec_log), len(self.offered)
+        data = bytes(self.rng.randrange(256) for _ in range(req_len))
+        orig_read = link.read_gatt_char
+        prepared = []
+
+        async def read(handle):
+            if not prepared:
+                prepared.append(1)
+                self._flush_enc(e0)                  # everything encrypted for this request, before any answer
+                link.prepare_response(resp_len, resp_frags)
+            return await orig_read(handle)
+        link.read_gatt_char = read
+        ok = True
+        try:
+            await bc.ble_request(link, self.ek, self.dk, OpCode.CHAR_WRITE, link.handle, 6, data)
+        except asyncio.CancelledError:
+            raise
+        except BaseException:  # noqa: BLE001
+            ok = False
+        if not prepared:
+            self._flush_enc(e0)
+        # what the controller's decrypt did with what it was offered, in order
+        decs = self.dec_log[d0:]
+        offs = self.offered[o0:]
+        for (kind, k), (ctr, good) in zip(offs, decs):
+            if kind == "corrupt":
+                self.log("corrupt", ok=bool(good))
+            else:
+                self.log("deliver", k=k, ok=bool(good))
+        if not ok:
+            # what BlePairing does after any failed request: the session is closed, the next one starts with new keys
+            self.open = False
+            self.log("abandon")
+        return ok
+
+
+async def drive_ble_requests(rng, nsteps):
+    """A seeded history of request-level BLE transactions with faults."""
+    r = BleReqRunner(rng)
+    for _ in range(nsteps):
+        if not r.open:
+            r.rekey()
+        frag = rng.choice([20, 30, 81, 82, 100, 155, 244, 509])
+        req_len = rng.choice([0, 1, 10, frag - 8, frag, 3 * frag, rng.randrange(0, 700)])
+        x = rng.random()
+        fail_at = None
+        plan = []
+        resp_frags = rng.randrange(1, 5)
+        resp_len = rng.choice([0, 1, 5, 60, rng.randrange(0, 400)])
+        if x < 0.25:
+            nw = max(1, -(-(req_len + 7) // frag))
+            fail_at = rng.choice([0, 0, rng.randrange(0, nw)])       # mostly the very first write of the request
+        elif x < 0.45 and r.frames:
+            plan = [("replay", rng.randrange(0, len(r.frames)))]
+        elif x < 0.55:
+            plan = [rng.choice(["next", "skip"]), "skip"]
+        elif x < 0.65:
+            plan = [rng.choice(["corrupt", "next"]), "corrupt"]
+        await r.transaction(frag, req_len, fail_at, resp_len, resp_frags, plan)
+    return r
